@@ -187,11 +187,28 @@ pub struct Reporter {
     pub property: String,
     sigs: Mutex<BTreeMap<String, SigEntry>>,
     pub machinery_errors: Mutex<Vec<String>>,
+    /// a few of the actual cases this run judged, written into the evidence
+    actual_samples: Mutex<Vec<Value>>,
+    sample_budget: AtomicUsize,
 }
 
 impl Reporter {
     pub fn new(property: &str) -> Self {
-        Reporter { property: property.to_string(), sigs: Mutex::new(BTreeMap::new()), machinery_errors: Mutex::new(Vec::new()) }
+        Reporter { property: property.to_string(), sigs: Mutex::new(BTreeMap::new()), machinery_errors: Mutex::new(Vec::new()), actual_samples: Mutex::new(Vec::new()), sample_budget: AtomicUsize::new(0) }
+    }
+    /// record an actual judged case (every 2^k-th call up to a handful: first, 2nd, 4th, ... so the
+    /// samples spread over the run); the closure is only evaluated when the case is kept
+    pub fn sample(&self, f: impl FnOnce() -> Value) {
+        let n = self.sample_budget.fetch_add(1, Ordering::Relaxed) + 1;
+        if n.is_power_of_two() && (n <= 4 || n % 4096 == 0) {
+            let mut g = self.actual_samples.lock().unwrap();
+            if g.len() < 12 {
+                g.push(f());
+            }
+        }
+    }
+    pub fn take_samples(&self) -> Vec<Value> {
+        self.actual_samples.lock().unwrap().clone()
     }
     pub fn report(&self, signature: impl Into<String>, detail: Value) {
         let mut g = self.sigs.lock().unwrap();
@@ -319,7 +336,11 @@ pub fn finish(rep: &Reporter, tier: Tier, cov: Coverage, started: Instant) -> i3
     coverage.insert("states".into(), json!(cov.states.max(1)));
     coverage.insert("transitions".into(), json!(cov.transitions.max(1)));
     coverage.insert("traces_validated_against_impl".into(), json!(cov.traces_validated));
-    let samples = if cov.samples.is_empty() { vec![json!("(no sample recorded)")] } else { cov.samples.clone() };
+    let mut samples = rep.take_samples();
+    samples.extend(cov.samples.iter().cloned());
+    if samples.is_empty() {
+        samples.push(json!("(no sample recorded)"));
+    }
     coverage.insert("samples".into(), json!(samples));
     coverage.insert("exhaustive".into(), json!(cov.exhaustive));
     coverage.insert("violating_cases".into(), json!(total_viol));
